@@ -1142,6 +1142,7 @@ func stepsCmd(a Args) {
 		groups, seqs, trials = 5*a.N, 10*a.N, 3000
 	}
 	stStructOutputWitness(s)
+	stDecoratedStepWitness(s)
 	for _, stream := range strings.Split(streams, ",") {
 		switch stream {
 		case "calls":
@@ -1255,6 +1256,108 @@ func stStructOutputWitness(s *sink) {
 			s.finding(Finding{Prop: "C11", What: "Call of a struct-mapped step given the raw map of a valid input panicked instead of returning InvalidInputError: " + res.Msg})
 		} else if !errors.As(err, &inv) {
 			s.finding(Finding{Prop: "C11", What: "Call of a struct-mapped step given the raw map of a valid input: expected InvalidInputError", Detail: []string{fmt.Sprint(err)}})
+		}
+	}
+}
+
+// stDecorated is a CallableStep that is not the library's own implementation: it embeds a library-built
+// step and post-processes what that step's Call returns (signing, redacting, enriching the output).
+// CallableSchema holds CallableStep INTERFACE values, so CallStep itself has to check what comes back.
+type stDecorated struct {
+	schema.CallableStep
+	post func(id string, data any) (string, any, error)
+}
+
+func (d stDecorated) Call(ctx context.Context, runID string, data any) (string, any, error) {
+	id, out, err := d.CallableStep.Call(ctx, runID, data)
+	if err != nil {
+		return id, out, err
+	}
+	return d.post(id, out)
+}
+
+// stDecoratedStepWitness (oracle-only): what CallStep makes of a decorated step whose Call returns, for an
+// ACCEPTED input and after the handler ran exactly once, a declared output ID with conforming data, a
+// declared ID with data that does not satisfy the declared schema (too long, wrong Go type, nil), an
+// undeclared ID, or an error of its own. The error type must tell a rejected input (InvalidInputError)
+// from everything that went wrong with the output (never InvalidInputError / BadArgumentError).
+func stDecoratedStepWitness(s *sink) {
+	type ret struct {
+		name string
+		post func(id string, data any) (string, any, error)
+		want string // "ok", "undeclared", "nonconforming", "own"
+	}
+	own := errors.New("signing service unavailable")
+	rets := []ret{
+		{"the output as it is", func(id string, d any) (string, any, error) { return id, d, nil }, "ok"},
+		{"a conforming replacement", func(id string, d any) (string, any, error) { return id, map[string]any{"message": "signed"}, nil }, "ok"},
+		{"a message too long for the output schema", func(id string, d any) (string, any, error) {
+			return id, map[string]any{"message": strings.Repeat("x", 40)}, nil
+		}, "nonconforming"},
+		{"data of the wrong Go type", func(id string, d any) (string, any, error) { return id, "signed", nil }, "nonconforming"},
+		{"an undeclared property added", func(id string, d any) (string, any, error) {
+			return id, map[string]any{"message": "m", "signature": "s"}, nil
+		}, "nonconforming"},
+		{"nil data", func(id string, d any) (string, any, error) { return id, nil, nil }, "nonconforming"},
+		{"an undeclared output ID", func(id string, d any) (string, any, error) { return "signed", d, nil }, "undeclared"},
+		{"the empty output ID", func(id string, d any) (string, any, error) { return "", d, nil }, "undeclared"},
+		{"an error of its own", func(id string, d any) (string, any, error) { return "", nil, own }, "own"},
+	}
+	for _, r := range rets {
+		r := r
+		calls := 0
+		inner := schema.NewCallableStep[any]("greet",
+			schema.NewScopeSchema(schema.NewObjectSchema("in", map[string]*schema.PropertySchema{
+				"name": schema.NewPropertySchema(schema.NewStringSchema(nil, sp(int64(8)), nil), nil, true, nil, nil, nil, nil, nil)})),
+			map[string]*schema.StepOutputSchema{"success": schema.NewStepOutputSchema(
+				schema.NewScopeSchema(schema.NewObjectSchema("out", map[string]*schema.PropertySchema{
+					"message": schema.NewPropertySchema(schema.NewStringSchema(nil, sp(int64(20)), nil), nil, true, nil, nil, nil, nil, nil)})), nil, false)},
+			nil,
+			func(ctx context.Context, in any) (string, any) {
+				calls++
+				return "success", map[string]any{"message": "hi " + in.(map[string]any)["name"].(string)}
+			})
+		cs := schema.NewCallableSchema(stDecorated{inner, r.post})
+		for _, in := range []struct {
+			raw      any
+			accepted bool
+		}{{map[string]any{"name": "ann"}, true}, {map[string]any{"name": "a name that is too long"}, false}} {
+			calls = 0
+			var oid string
+			var data any
+			var err error
+			res := hx.Guard(func() hx.Result {
+				oid, data, err = cs.CallStep(context.Background(), "r", "greet", in.raw)
+				return hx.Result{R: "ok"}
+			})
+			s.stats["decorated-step-witness"]++
+			where := fmt.Sprintf("decorated step returning %s, input %v", r.name, in.raw)
+			et := stErrType(err)
+			bad := func(what string) {
+				s.finding(Finding{Prop: "C11", What: what, Detail: []string{where, fmt.Sprintf("output ID %q, data %v, error type %s: %v", oid, data, et, err)}})
+			}
+			switch {
+			case res.R == "panic":
+				bad("CallStep panicked: " + res.Msg)
+			case !in.accepted:
+				if calls != 0 || et != "InvalidInputError" {
+					bad(fmt.Sprintf("rejected input: expected InvalidInputError and no handler call, got %d calls", calls))
+				}
+			case calls != 1:
+				bad(fmt.Sprintf("handler invoked %d times for an accepted input", calls))
+			case r.want == "ok":
+				if err != nil || oid != "success" {
+					bad("a declared output ID with conforming data is not returned")
+				}
+			case err == nil:
+				bad("success although the step did not return a declared output ID with conforming data")
+			case et == "InvalidInputError" || et == "BadArgumentError":
+				bad("a failure on the OUTPUT side of an accepted input is reported with the error type of a rejected input / an unknown step")
+			case r.want == "undeclared" && et != "InvalidOutputError":
+				bad("undeclared output ID: expected InvalidOutputError")
+			case r.want == "own" && !errors.Is(err, own):
+				bad("the step's own error is not passed on")
+			}
 		}
 	}
 }
